@@ -9,7 +9,6 @@ import (
 
 	appsv1 "k8s.io/api/apps/v1"
 	corev1 "k8s.io/api/core/v1"
-	apiequality "k8s.io/apimachinery/pkg/api/equality"
 	apierrors "k8s.io/apimachinery/pkg/api/errors"
 	metav1 "k8s.io/apimachinery/pkg/apis/meta/v1"
 	"pgregory.net/rapid"
@@ -325,14 +324,14 @@ func runC08(rep Rep, c C08Case) {
 			if err != nil {
 				rep.Violate("update-revision/data-undecodable", "%s: revision %s data does not decode: %v", where, upd, err)
 			}
-			if !apiequality.Semantic.DeepEqual(got, want) {
-				rep.Violate("update-revision/data-differs-from-template", "%s: the data of update revision %s differs from the set's template at %s", where, upd, explain(*want, *got))
+			if !c19Equal.DeepEqual(got, want) {
+				rep.Violate("update-revision/data-differs-from-template", "%s: the data of update revision %s differs from the set's template at %s%s", where, upd, explain(*want, *got), jsonPair(*want, *got))
 			}
 			applied, err := statefulset.ApplyRevision(cached, R)
 			if err != nil {
 				rep.Violate("update-revision/apply-failed", "%s: ApplyRevision(%s) failed: %v", where, upd, err)
 			}
-			if !apiequality.Semantic.DeepEqual(&applied.Spec.Template, want) {
+			if !c19Equal.DeepEqual(&applied.Spec.Template, want) {
 				rep.Violate("update-revision/apply-does-not-reproduce-template", "%s: applying update revision %s to the set does not reproduce its template, differs at %s", where, upd, explain(*want, applied.Spec.Template))
 			}
 			var creates []*sim.Action
@@ -348,7 +347,7 @@ func runC08(rep Rep, c C08Case) {
 				if !isControlledBy(rv.OwnerReferences, cached.UID) {
 					continue
 				}
-				if t, err := revTemplate(rv); err == nil && apiequality.Semantic.DeepEqual(t, want) && rv.Labels["app"] == "web" {
+				if t, err := revTemplate(rv); err == nil && c19Equal.DeepEqual(t, want) && rv.Labels["app"] == "web" {
 					if earlier == nil || rv.Revision > earlier.Revision {
 						earlier = rv
 					}
@@ -366,7 +365,7 @@ func runC08(rep Rep, c C08Case) {
 				if upd != earlier.Name {
 					same := false
 					if alt := cl.Rev(NS, upd); alt != nil {
-						if t, err := revTemplate(alt); err == nil && apiequality.Semantic.DeepEqual(t, want) {
+						if t, err := revTemplate(alt); err == nil && c19Equal.DeepEqual(t, want) {
 							same = true
 						}
 					}
@@ -431,3 +430,19 @@ func TestC08(t *testing.T)        { checkCases(t, "C08", genC08, runC08) }
 func TestRegressC08(t *testing.T) { regress(t, "C08", runC08) }
 
 var _ = metav1.Now
+
+// jsonPair renders two values as JSON when a structural comparison found no path (diagnostics only).
+func jsonPair(a, b interface{}) string {
+	if explain(a, b) != "" {
+		return ""
+	}
+	ja, _ := json.Marshal(a)
+	jb, _ := json.Marshal(b)
+	if len(ja) > 3000 {
+		ja = ja[:3000]
+	}
+	if len(jb) > 3000 {
+		jb = jb[:3000]
+	}
+	return fmt.Sprintf("\n want %s\n got  %s", ja, jb)
+}
